@@ -8,7 +8,8 @@ Python mirrored (all in /repo/hed):
 * `models/definition_entry.py` `DefinitionEntry.__init__` (sorted copy), `get_definition`
 * `models/hed_tag.py`          `expandable` (lazy cache `_expandable`, flag `_expanded`), `expanded`,
   `replace_placeholder`, `short_base_tag` setter, `__eq__`, `__str__`
-* `models/hed_group.py`        `replace/_replace`, `_sorted`, `__eq__`, `__str__`, `find_def_tags`, `find_tags`
+* `models/hed_group.py`        `replace/_replace`, `_sorted` with `_sort_key` (canonical case-folded key, then printout), `__eq__`,
+  `__str__`, `find_def_tags`, `find_tags`
 * `models/hed_string.py`       `expand_defs`, `shrink_defs`, `copy`
 * `validator/def_validator.py` `validate_def_tags`, `_validate_def_contents`
 
